@@ -10,3 +10,7 @@ import NormModel.Properties.C13
 #print axioms Norm.C13.accept
 #print axioms Norm.C13.at_most_once
 #print axioms Norm.C13.reject_no_header
+#print axioms Norm.C13.at_most_once_file
+#print axioms Norm.C13.reject_file
+#print axioms Norm.C13.accept_file
+#print axioms Norm.C13.headerDiags_length
